@@ -183,6 +183,12 @@ func checkC10(c *Ctx) error {
 			expectOK: func(f []string) bool { return has(f, "--ignore-missing-params") }},
 		{name: "missing-service", prepare: func(d string) []string { write(filepath.Join(d, "a.yaml"), inject("missing-service")); return []string{"a.yaml"} },
 			expectOK: func(f []string) bool { return has(f, "--ignore-missing-services") }},
+		{name: "same-dangling-reference-repeated", prepare: func(d string) []string {
+			write(filepath.Join(d, "a.yaml"), "parameters:\n  p: \"%nope%-%nope%-%nope%\"\nservices:\n  s:\n    constructor: \"New\"\n    arguments: [\"@gone\", \"@gone\", \"%nope%\", \"%nope%\"]\n    calls: [[\"Set\", [\"@gone\", \"@gone\"]]]\n  t:\n    constructor: \"New\"\n    arguments: [\"@gone\", \"@gone\"]\n")
+			return []string{"a.yaml"}
+		}, expectOK: func(f []string) bool {
+			return has(f, "--ignore-missing-params") && has(f, "--ignore-missing-services")
+		}},
 		{name: "formatting-error-keyword-package", prepare: func(d string) []string {
 			write(filepath.Join(d, "a.yaml"), "meta:\n  pkg: \"func\"\nservices:\n  a: {value: \"X\"}\n")
 			return []string{"a.yaml"}
